@@ -3,7 +3,7 @@
 import sys, types, z3, eng, builtins
 from eng import SR, SB
 inf=float('inf'); newaxis=None
-float64='f8'; float32='f4'; int64='i8'; int32='i4'; int16='i2'; int8='i1'; bool_='b'
+float64='f8'; float32='f4'; int64='i8'; int32='i4'; int16='i2'; int8='i1'; bool_=bool
 class _Flags: writeable=True
 def _sc(v): return v
 def _and(a,b):
@@ -60,6 +60,8 @@ class Arr:
     __rmul__=__mul__
     def __truediv__(a,b): return a._bin(b, lambda x,y:x/y)
     def __neg__(a): return Arr([-x for x in a.items], a.dtype)
+    def __ne__(a,b): return a._bin(b, lambda x,y: (_not(x==y) if not isinstance(x,(SB,bool)) else _or(_and(x,_not(y)),_and(_not(x),y))), bool_)
+    __hash__=None
     def __le__(a,b): return a._bin(b, lambda x,y:x<=y, bool_)
     def __lt__(a,b): return a._bin(b, lambda x,y:x<y, bool_)
     def __ge__(a,b): return a._bin(b, lambda x,y:x>=y, bool_)
@@ -73,6 +75,10 @@ class Arr:
         for x in s.items: r=_or(r,x)
         return r if not isinstance(r,SB) else bool(r)
     def dot(a,b): return dot(a,b)
+    def sum(s):
+        r=0
+        for x in s.items: r = r + (_ite(x,1.0,0.0) if isinstance(x,(SB,bool)) else x)
+        return r
 class MaskedView(Arr):
     '''x[mask] with a symbolic mask: full-length items + mask; only element-wise use is supported'''
     def __init__(s, items, mask, dtype=float64): Arr.__init__(s, items, dtype); s.mask=list(mask)
@@ -80,6 +86,14 @@ class MaskedView(Arr):
         bs = b.items if isinstance(b,Arr) else [b]*len(a.items)
         return MaskedView([f(x,y) for x,y in zip(a.items,bs)], a.mask, dt or a.dtype)
     shape=property(lambda s: (_ for _ in ()).throw(NotImplementedError('length of symbolic selection')))
+    def all(s):
+        r=True
+        for x,m in zip(s.items,s.mask): r=_and(r,_or(_not(m),x))
+        return r if not isinstance(r,SB) else bool(r)
+    def any(s):
+        r=False
+        for x,m in zip(s.items,s.mask): r=_or(r,_and(m,x))
+        return r if not isinstance(r,SB) else bool(r)
 def _conc(m): return bool(m)      # masks are concretised by forking (probe only)
 ndarray=Arr
 def copy(a): return a.copy()
@@ -116,6 +130,7 @@ def logical_not(a): return Arr([_not(x) for x in a.items], bool_)
 def clip(x,lo,hi,out=None):
     if isinstance(x,Arr):
         r = Arr([_min(_max(v,l),h) for v,l,h in zip(x.items, lo.items, hi.items)])
+        if isinstance(x,MaskedView): r = MaskedView(r.items, x.mask)
         if out is not None: out.items[:] = r.items; return out
         return r
     return _min(_max(x,lo),hi)
